@@ -110,6 +110,7 @@ theorem validateV2Transaction_ok {ms : Mid} {t : Txn2} {mw : Nat} (h : validateV
   split at h
   · rw [bind_eq_ok] at h; obtain ⟨_, hr, _⟩ := h; cases hr
   · rw [bind_eq_ok] at h; obtain ⟨_, _, h⟩ := h
+    rw [bind_eq_ok] at h; obtain ⟨_, _, h⟩ := h
     split at h
     · rw [bind_eq_ok] at h; obtain ⟨_, hr, _⟩ := h; cases hr
     · split at h
@@ -121,7 +122,7 @@ theorem validateV2Transaction_ok {ms : Mid} {t : Txn2} {mw : Nat} (h : validateV
 
 /-- the per-input checks of `validateV2Siacoins` -/
 def ScIn2Ok (ms : Mid) (sci : ScIn2) : Prop :=
-  ms.isSpent sci.parent.id = false ∧
+  ms.isSpent sci.parent.id = false ∧ sci.parent.maturity ≤ ms.base.child ∧
   match sci.parent.leaf with
   | none => validateEphemeralSc ms sci = .ok ()
   | some _ => ms.base.hasSc sci.parent = true
@@ -215,13 +216,14 @@ theorem validateV2Siacoins_ok {ms : Mid} {t : Txn2} (h : validateV2Siacoins ms t
       · rename_i hct
         split at hh
         · cases hh
-        · rw [bind_eq_ok] at hh; obtain ⟨u, hu, hh⟩ := hh
+        · rename_i hmat
+          rw [bind_eq_ok] at hh; obtain ⟨u, hu, hh⟩ := hh
           split at hh
           · cases hh
           · split at hh
             · cases hh
             · cases hh
-              refine ⟨rfl, ?_, ?_, ?_⟩
+              refine ⟨rfl, ?_, ?_, Nat.le_of_not_lt hmat, ?_⟩
               · intro hm; exact hct (List.contains_iff_mem.mpr hm)
               · simpa using hsp
               · split at hu
